@@ -14,6 +14,7 @@ import (
 	"strings"
 
 	"github.com/coregx/coregex"
+	"github.com/coregx/coregex/vfhook/vatomic"
 	"github.com/coregx/coregex/vfhook/vsched"
 
 	"verif/internal/bx"
@@ -132,7 +133,57 @@ func pointCost(p vsched.PointRec, choice int) int {
 	return 0
 }
 
+// ---- harness validation: what the race detector can and cannot see under the scheduler ------------------------
+//
+// Once per race-build worker process, before its first unit: (1) two logical threads that increment one plain variable
+// strictly one after the other under the controlled scheduler MUST be reported (the hand-off itself creates no
+// happens-before edge); (2) a write published through the atomic-pointer shim and read after loading that pointer
+// must NOT be reported (the shim performs the real atomic operation). A failure of either is an error of the checking
+// machinery (exit 2), never a violation.
+var (
+	scPlain   int
+	scPayload int
+	scSlot    vatomic.Pointer[int]
+	scDone    bool
+)
+
+func scBump()          { scPlain++ }
+func scPublish(v *int) { scPayload = 41; scSlot.Store(v) }
+func scConsume() int {
+	if scSlot.Load() != nil {
+		return scPayload + 1
+	}
+	return 0
+}
+
+func raceSelfCheck(w *harness.W) {
+	if !raceEnabled || scDone {
+		return
+	}
+	scDone = true
+	log := newRaceLog()
+	if log.path == "" {
+		return
+	}
+	vsched.Run(nil, []func(){scBump, scBump})
+	if len(log.newReports()) == 0 {
+		w.C["harness_errors"]++
+		fmt.Fprintln(os.Stderr, "HARNESS: race-visibility self-check failed: unsynchronised increments under the scheduler were not reported")
+		return
+	}
+	v := 1
+	got := 0
+	vsched.Run(nil, []func(){func() { scPublish(&v) }, func() { got = scConsume() }})
+	if rep := log.newReports(); len(rep) > 0 || got != 42 {
+		w.C["harness_errors"]++
+		fmt.Fprintf(os.Stderr, "HARNESS: race-visibility self-check failed: publication through the atomic shim reported as a race (%v) or not observed (got %d)\n", rep, got)
+		return
+	}
+	w.C["race_visibility_selfchecks_passed"]++
+}
+
 func runUnit(w *harness.W, u sx.Unit, bound, capExec int) {
+	raceSelfCheck(w)
 	// alone results: every call on its own fresh value, outside any exploration
 	alone := make([][]string, len(u.Threads))
 	for i, calls := range u.Threads {
@@ -153,20 +204,18 @@ func runUnit(w *harness.W, u sx.Unit, bound, capExec int) {
 		reported[key] = true
 		w.Fail(&harness.Case{Op: op, Mode: w.Pass, Pattern: u.String(), Hay: strconv.Quote(fmt.Sprint(choices)), Want: want, Got: got, Cluster: op})
 	}
-	// iterative context bounding: everything with 0 deviations, then with at most 1, then with at most 2, … so that an
-	// execution cap truncates only the deepest level; the exploration of a harness stops at its first failing execution
-	// (the first counterexample has the fewest deviations)
-	curBound := 0
+	// iterative context bounding without re-execution: work lists per deviation count. Level c holds the schedule
+	// prefixes whose execution has exactly c deviations (a prefix's execution takes choice 0 — no deviation — at every
+	// later point, so its cost is the cost of the prefix); executing one yields its alternatives of cost c (forced
+	// switches: the running thread ended) and c+1. Level c is emptied completely before level c+1 is started, so an
+	// execution cap truncates only the deepest level reached, and the first counterexample has the fewest deviations.
+	// completedBound = the largest c such that every schedule with at most c deviations was executed.
+	big := strings.Contains(u.String(), "@repeat:")
+	levels := make([][][]int, bound+2)
+	levels[0] = [][]int{nil}
+	completedBound := -1
 	stop := false
-	var explore func(prefix []int)
-	explore = func(prefix []int) {
-		if capped || stop {
-			return
-		}
-		if execs >= int64(capExec) {
-			capped = true
-			return
-		}
+	runPrefix := func(prefix []int, level int) {
 		r := runOne(u, prefix)
 		execs++
 		x := r.ex
@@ -178,8 +227,13 @@ func runUnit(w *harness.W, u sx.Unit, bound, capExec int) {
 			return
 		}
 		ch := choicesOf(x)
-		if costBefore(x, len(x.Points)) > 0 {
+		if c := costBefore(x, len(x.Points)); c > 0 {
 			nontrivial++
+			if c != level {
+				w.C["harness_errors"]++
+				fmt.Fprintf(os.Stderr, "HARNESS: schedule %v has %d deviations, expected %d on %s\n", ch, c, level, u.String())
+				return
+			}
 		}
 		outcomes[fmt.Sprint(r.results)] = true
 		if x.Problem != "" {
@@ -201,25 +255,43 @@ func runUnit(w *harness.W, u sx.Unit, bound, capExec int) {
 			stop = true
 			return
 		}
+		before := costBefore(x, len(prefix))
 		for i := len(prefix); i < len(x.Points); i++ {
 			p := x.Points[i]
 			nalt := len(p.Enabled)
 			if p.EnvAlternatives > 0 {
 				nalt = p.EnvAlternatives
 			}
-			before := costBefore(x, i)
 			for alt := 1; alt < nalt; alt++ {
-				if before+pointCost(p, alt) > curBound {
+				c := before + pointCost(p, alt)
+				if c > bound {
 					continue
 				}
 				trans++
-				np := append(append([]int{}, ch[:i]...), alt)
-				explore(np)
+				levels[c] = append(levels[c], append(append(make([]int, 0, i+1), ch[:i]...), alt))
 			}
+			before += pointCost(p, p.Chosen)
 		}
 	}
-	for curBound = 0; curBound <= bound && !capped && !stop; curBound++ {
-		explore(nil)
+	for level := 0; level <= bound && !capped && !stop; level++ {
+		for len(levels[level]) > 0 && !stop {
+			if execs >= int64(capExec) && (level >= 2 || big) {
+				// the cap never truncates levels 0 and 1 of an ordinary harness (a few hundred schedules at most)
+				capped = true
+				break
+			}
+			n := len(levels[level]) - 1
+			prefix := levels[level][n]
+			levels[level] = levels[level][:n]
+			runPrefix(prefix, level)
+		}
+		if !capped && !stop {
+			completedBound = level
+		}
+	}
+	w.C[fmt.Sprintf("harnesses_complete_to_bound_%d", completedBound)]++
+	if completedBound < bound && !stop {
+		w.C["schedules_left_unexplored_at_cap"] += int64(len(levels[completedBound+1]))
 	}
 	w.C["evaluations"] += execs
 	w.C["states"] += points
@@ -231,7 +303,7 @@ func runUnit(w *harness.W, u sx.Unit, bound, capExec int) {
 	if capped {
 		w.C["harnesses_execution_cap_hit"]++
 	}
-	w.Sample(map[string]any{"harness": u.String(), "executions": execs, "scheduling_points": points, "distinct_outcomes": len(outcomes), "cap_hit": capped, "pass": w.Pass, "race_detector": raceEnabled})
+	w.Sample(map[string]any{"harness": u.String(), "executions": execs, "scheduling_points": points, "distinct_outcomes": len(outcomes), "cap_hit": capped, "completed_deviation_bound": completedBound, "pass": w.Pass, "race_detector": raceEnabled})
 }
 
 func main() {
@@ -250,7 +322,11 @@ func main() {
 	store := &kf.Store{}
 	if *triage == "" {
 		var err error
-		store, err = kf.Load("/verif", id)
+		kfRoot := os.Getenv("VF_ROOT")
+		if kfRoot == "" {
+			kfRoot = "/verif"
+		}
+		store, err = kf.Load(kfRoot, id)
 		if err != nil {
 			fmt.Fprintln(os.Stderr, "sx:", err)
 			os.Exit(2)
